@@ -376,6 +376,12 @@ class CrashEngine(SingleBase):
             if bad:
                 self.v({"C10", "C09"}, "crash", "crash:partial-object:%s" % name, dict(detail, cids=bad))
                 return
+            versions = set(w.mcontents)
+            for key, data in a["meta"].items():
+                if data not in versions:
+                    self.v({"C10", "C09"}, "crash", "crash:partial-metadata-document:%s" % name,
+                           dict(detail, document=list(key), size=len(data)))
+                    return
             # (2) the interrupted pid: complete correct bytes or a not-found / inconsistent report
             if pid is not None and name in ("store", "tag", "delete"):
                 o = post_obs[("obj", pid)]
